@@ -30,6 +30,7 @@ class Ctx:
     def __init__(self, prop, tier):
         self.prop = prop
         self.tier = tier
+        self.undecided_obs = []
         self.obs = []
         self.rules = {}          # rule id -> (description, min_instances)
         self.units = set()
@@ -40,7 +41,11 @@ class Ctx:
 
     # ---- registration
     def rule(self, rid, desc, min_instances=1):
-        self.rules[rid] = (desc, min_instances)
+        # min_instances is the count confirmed by reading today's tree.  The floor that makes a run
+        # "analysis broken" is 60% of it: de-duplicating refactors legitimately remove instances
+        # (four inline bounds checks replaced by calls of one checked accessor), a vanished anchor
+        # removes all of them.
+        self.rules[rid] = (desc, max(1, (min_instances * 6) // 10) if min_instances > 1 else min_instances)
 
     def unit(self, u):
         self.units.add(os.path.basename(u.path))
@@ -61,6 +66,11 @@ class Ctx:
         else:
             self.bad(rule, key, node_or_loc, bad_detail or ok_detail)
         return cond
+
+    def undecided(self, rule, key, node_or_loc, why):
+        """the construct is outside what the rule models: neither discharged nor a violation.  The
+        run ends as analysis-broken (exit 2) unless some other obligation is definitely violated."""
+        self.undecided_obs.append((rule, key, _loc(node_or_loc), why))
 
     def note(self, s):
         self.notes.append(s)
@@ -90,6 +100,11 @@ def finish(ctx, broken=None):
     known = [k for k in load_known() if k.get('property') == prop and k.get('status') == 'known']
     known_keys = {(k['rule'], k['key']): k for k in known}
 
+    for rule_, key_, loc_, why_ in getattr(ctx, 'undecided_obs', []):
+        print('undecided: %s %s at %s: %s' % (rule_, key_, loc_, why_))
+    if broken is None and getattr(ctx, 'undecided_obs', None):
+        u0 = ctx.undecided_obs[0]
+        broken = '%d obligation(s) could not be decided (first: %s %s at %s: %s)' % (len(ctx.undecided_obs), u0[0], u0[1], u0[2], u0[3])
     # minimum-instance discipline: a rule that matched fewer sites than confirmed by hand is broken
     if broken is None:
         counts = {}
